@@ -84,6 +84,58 @@ func otherPublicArmored() []byte {
 	return buf.Bytes()
 }
 
+// a passphrase-protected key with TWO signing subkeys, made once per run: a key id may name either of them
+var (
+	multiKey     *openpgp.Entity
+	multiKeyIDs  []string
+	multiKeyPass = "the multi-subkey passphrase"
+)
+
+func multiKeyArmored() []byte {
+	if multiKey == nil {
+		e, err := openpgp.NewEntity("Verif Multi", "", "multi@example.com", nil)
+		must(err)
+		must(e.AddSigningSubkey(nil))
+		must(e.AddSigningSubkey(nil))
+		for _, sk := range e.Subkeys {
+			if sk.Sig != nil && sk.Sig.FlagsValid && sk.Sig.FlagSign {
+				multiKeyIDs = append(multiKeyIDs, fmt.Sprintf("%x", sk.PublicKey.KeyId))
+			}
+		}
+		multiKey = e
+	}
+	// serialise with every secret key encrypted under the passphrase (the self-signatures exist already)
+	var pub bytes.Buffer
+	must(multiKey.Serialize(&pub))
+	var plain bytes.Buffer
+	must(multiKey.SerializePrivateWithoutSigning(&plain, nil))
+	el, err := openpgp.ReadKeyRing(bytes.NewReader(plain.Bytes()))
+	must(err)
+	locked := el[0]
+	must(locked.PrivateKey.Encrypt([]byte(multiKeyPass)))
+	for _, sk := range locked.Subkeys {
+		if sk.PrivateKey != nil {
+			must(sk.PrivateKey.Encrypt([]byte(multiKeyPass)))
+		}
+	}
+	var buf bytes.Buffer
+	aw, err := armor.Encode(&buf, openpgp.PrivateKeyType, nil)
+	must(err)
+	must(locked.SerializePrivateWithoutSigning(aw, nil))
+	aw.Close()
+	return buf.Bytes()
+}
+
+func multiPublicArmored() []byte {
+	multiKeyArmored()
+	var buf bytes.Buffer
+	aw, err := armor.Encode(&buf, openpgp.PublicKeyType, nil)
+	must(err)
+	must(multiKey.Serialize(aw))
+	aw.Close()
+	return buf.Bytes()
+}
+
 type cbRecord struct {
 	calls [][]byte
 }
@@ -207,6 +259,22 @@ func sigVariants() []sigVariant {
 			must(os.WriteFile("rotating.asc", otherKeyArmored(), 0o600))
 			set(info, "rotating.asc")
 		}, expect: "ok", ring: func() openpgp.EntityList { return openpgp.EntityList{otherKey} }})
+	}
+	// a protected key with two signing subkeys: the key id may select either (one of them is not the one a library
+	// would pick by itself)
+	for _, f := range []string{"deb", "rpm"} {
+		for which := 0; which < 2; which++ {
+			f, which := f, which
+			vs = append(vs, sigVariant{name: fmt.Sprintf("%s-protected-key-second-signing-subkey-%d", f, which), format: f, tweak: func(info *nfpm.Info, _ *cbRecord) {
+				must(os.WriteFile("multi.asc", multiKeyArmored(), 0o600))
+				id := multiKeyIDs[which%len(multiKeyIDs)]
+				if f == "deb" {
+					info.Deb.Signature.KeyFile, info.Deb.Signature.KeyPassphrase, info.Deb.Signature.KeyID = "multi.asc", multiKeyPass, &id
+				} else {
+					info.RPM.Signature.KeyFile, info.RPM.Signature.KeyPassphrase, info.RPM.Signature.KeyID = "multi.asc", multiKeyPass, &id
+				}
+			}, expect: "ok", ring: func() openpgp.EntityList { multiKeyArmored(); return openpgp.EntityList{multiKey} }})
+		}
 	}
 	// an invalid type is invalid whoever signs: a callback without any key file
 	vs = append(vs, sigVariant{name: "debsign-callback-type-invalid", format: "deb", tweak: func(info *nfpm.Info, rec *cbRecord) {
@@ -432,6 +500,21 @@ func sigVariants() []sigVariant {
 			}, expect: "ok"})
 		}
 	}
+	// the key FILE's name says nothing about the key NAME (abuild-keygen calls its files <name>.rsa)
+	for _, fn := range []string{"ci-signing.rsa", "packager-5f3a9c1e.rsa", "key.rsa.pub"} {
+		for _, kn := range []string{"", "explicit"} {
+			fn, kn := fn, kn
+			vs = append(vs, sigVariant{name: "apk-key-file-named-" + fn + "-keyname=" + kn, format: "apk", tweak: func(info *nfpm.Info, _ *cbRecord) {
+				b, err := os.ReadFile(testdata("rsa_unprotected.priv"))
+				must(err)
+				must(os.WriteFile(fn, b, 0o600))
+				info.APK.Signature.KeyFile, info.APK.Signature.KeyName = fn, kn
+				if info.Maintainer == "" || !strings.Contains(info.Maintainer, "@") {
+					info.Maintainer = "Release Team <releases@example.com>"
+				}
+			}, expect: "ok"})
+		}
+	}
 	vs = append(vs, sigVariant{name: "apk-callback", format: "apk", tweak: func(info *nfpm.Info, rec *cbRecord) {
 		info.APK.Signature.KeyName = "cb"
 		info.APK.Signature.SignFn = func(r io.Reader) ([]byte, error) {
@@ -461,6 +544,9 @@ func gpgSetup(dir string) {
 		other := filepath.Join(dir, "other.pub.asc")
 		must(os.WriteFile(other, otherPublicArmored(), 0o644))
 		exec.Command("gpg", "--batch", "--quiet", "--homedir", home, "--import", other).Run()
+		multi := filepath.Join(dir, "multi.pub.asc")
+		must(os.WriteFile(multi, multiPublicArmored(), 0o644))
+		exec.Command("gpg", "--batch", "--quiet", "--homedir", home, "--import", multi).Run()
 	}
 }
 
@@ -506,6 +592,9 @@ func gpgVerify(sig, data []byte) string {
 	other := filepath.Join(fresh, "other.pub.asc")
 	os.WriteFile(other, otherPublicArmored(), 0o644)
 	exec.Command("gpg", "--batch", "--quiet", "--homedir", fresh, "--import", other).Run()
+	multi := filepath.Join(fresh, "multi.pub.asc")
+	os.WriteFile(multi, multiPublicArmored(), 0o644)
+	exec.Command("gpg", "--batch", "--quiet", "--homedir", fresh, "--import", multi).Run()
 	if gpgVerifyIn(fresh, sig, data) {
 		return "1"
 	}
